@@ -5,6 +5,27 @@ V = os.path.dirname(os.path.dirname(os.path.abspath(__file__)))
 props = [json.loads(l) for l in open(os.path.join(V, "properties.jsonl"))]
 
 CHECKS = {
+ "C03": dict(engine="pspace+ivh", category="exploration", design="DESIGN.md §2 C03",
+   technique="bounded exhaustive rule x context enumeration of ill-typed programs against the real type checker, with benign twins",
+   text="Every rule-breaking construct from the property's list (34 statement/expression/declaration rule variants) is placed in every statement, function and expression context of a well-typed base program (quick: 1 context level, thorough: two levels and pairs), with the byte range of the offending construct recorded; the real checker must return an error whose span intersects that range, and the benign twin in the same place must be accepted (so an over-strict checker or a broken generator cannot pass). A slice is replayed through `incan --check`.",
+   note="The rule list and the contexts are those enumerated in pspace/c03.py; programs beyond two nesting levels are not covered. Known findings (call-argument types, field mutation through immutable bindings, f-string sub-spans) are listed in known_findings.txt."),
+ "C08": dict(engine="pspace+ivh", category="exploration", design="DESIGN.md §2 C08",
+   technique="deviation-bounded exhaustive enumeration of syntactic programs (atom x context) through the real formatter; AST equality of re-parsed output",
+   text="One atom per AST node kind and optional field (356 declaration/statement/expression/pattern/type atoms) is placed alone, in every context (quick, 11k programs) and nested two contexts deep (thorough, 198k programs), plus the repository's 90 own sources; for each, format_source must succeed, its output must lex and parse, and the span-erased AST must equal the original's modulo the stated spelling normalisations.",
+   note="AST equality is on the derived Debug rendering with spans erased; normalisations: tuple/unit type spellings, module docstring outer whitespace. Programs beyond the deviation bound are not covered."),
+ "C09": dict(engine="pspace+ivh+cli", category="exploration", design="DESIGN.md §2 C09",
+   technique="same enumerated program space as C08: fmt(fmt(x))==fmt(x), surface rules by re-lexing, and the real CLI (fmt / --check / --diff / both) on a scratch tree",
+   text="For every enumerated program whose first format re-parses: a second format is byte-identical, the output ends in exactly one newline and has no tab / trailing whitespace outside string-like tokens (decided by re-lexing). The real `incan fmt`, `fmt --check`, `fmt --diff` and `--check --diff` are run on a scratch tree of 400 of the cases: --check/--diff never modify files, exit non-zero before and zero after formatting, and the CLI writes exactly what the library returned.",
+   note="Same bounds as C08. The CLI part uses the level-1 cases only."),
+ "C10": dict(engine="ivh", category="exploration", design="DESIGN.md §2 C10",
+   technique="exhaustive enumeration of layout edits at every position (from the real lexer's token spans) of every base program, and all (global transform x local edit) pairs; AST equality",
+   text="For each base program (repository sources and generated level-1 programs) every meaning-preserving edit is applied at every position: comment line at 5 indentations, empty / blank / tab-only line at each line boundary, trailing comment / spaces / tab on each line, a line break after every token inside brackets at 3 continuation indents, drop/double final newline, CRLF, re-indent to 2/3/8 spaces or tabs, and every pair (global transform x local edit); the parse must succeed with the same span-erased AST.",
+   note="Positions inside string-like tokens are data and are not edited; base programs must be on a 4-space grid. Only the listed edit kinds are covered."),
+ "C11": dict(engine="ivh", category="exploration", design="DESIGN.md §2 C11",
+   technique="bounded exhaustive enumeration of inputs (all chunk strings up to length 4/5, all single-edit neighbours of repository sources, nesting ladders to depth 64) through lex/parse/check/format/emit under catch_unwind and a watchdog",
+   text="All strings of <=4 (thorough <=5) chunks over a 32-chunk alphabet mixing raw fragments and whole tokens (1.1M / 34.6M inputs), every prefix, single-character deletion and chunk insertion at token boundaries of the repository's own sources, and nesting/chain ladders to depth 64 (in a child process) run through every front-end stage exactly as the CLI calls them; each stage must return a result or a non-empty diagnostics list, every diagnostic span must lie in the file on char boundaries with start<=end and must render for terminal and editor without panicking. A slice is replayed through the real binary.",
+   note="Inputs outside the alphabet / more than one edit away from a repository source are not covered; termination is judged by a 30 s no-progress watchdog."),
+
  "C04": dict(engine="ivh", category="exploration", design="DESIGN.md §2 C04",
    technique="bounded exhaustive enumeration of operand pairs over a boundary lattice on the real kernels, CPython as reference",
    text="Every pair of a boundary lattice of i64 / f64 operands (all sign, zero-remainder, MIN/-1/MAX, 2^31/2^32/2^53/2^62 neighbourhoods; thorough adds the dense square [-1024,1024]^2) is evaluated on every entry point of both kernel copies (semantic core, runtime library; generic and suffixed) and compared with CPython's //, %, / and with the defining invariants; every zero divisor must raise exactly the documented ZeroDivisionError and no other pair may fail. This is a complete enumeration of a finite operand space, not a proof for all 2^128 pairs: the kernels are branch-on-sign code, so the lattice is chosen to contain every sign/zero/boundary class.",
@@ -42,8 +63,10 @@ m = {
  "hooks": {"guard": "incan_verif", "enable": "none needed: no source hooks exist; every entry point used is already public (RUSTFLAGS=\"--cfg incan_verif\" is reserved)",
            "baseline_off_cmd": "cd /repo && cargo test --workspace --no-fail-fast --offline", "source_commits": [], "add_only": True},
  "engines": [
-   {"name": "ivh", "path": "/verif/harness", "serves_properties": sorted(k for k, v in CHECKS.items() if v["engine"] == "ivh"),
+   {"name": "ivh", "path": "/verif/harness", "serves_properties": sorted(k for k, v in CHECKS.items() if "ivh" in v["engine"]),
     "kind_free_text": "in-process Rust harness linked against /repo's crates; enumerates bounded spaces completely and evaluates the real code on every case"},
+   {"name": "pspace", "path": "/verif/pspace", "serves_properties": sorted(k for k, v in CHECKS.items() if "pspace" in v["engine"]),
+    "kind_free_text": "Python enumerators (deviation-bounded program spaces), oracles (CPython, documented tables, differential) and the evidence/findings protocol; drives ivh and the real incan CLI"},
  ],
  "checks": checks,
  "not_applicable": na,
